@@ -38,7 +38,7 @@ type Loaded struct {
 }
 
 var specHelperNames = map[string]bool{
-	"old": true, "athead": true, "implies": true, "iff": true, "forall": true, "exists": true, "forall2": true,
+	"old": true, "athead": true, "held": true, "implies": true, "iff": true, "forall": true, "exists": true, "forall2": true,
 	"Z": true, "result": true, "panics": true, "fresh": true, "strdigits": true, "parsedec": true,
 	"substr": true, "imin": true, "imax": true, "lower": true, "isnil": true, "typeis": true,
 	"sliceeq": true, "sameslice": true, "psum": true, "let": true, "ite": true, "alloc": true,
@@ -50,6 +50,7 @@ type Z int
 
 func old[T any](x T) T                  { return x }
 func athead[T any](x T) T               { return x }
+func held(mu string) bool               { return mu != "" }
 func implies(a, b bool) bool            { return !a || b }
 func iff(a, b bool) bool                { return a == b }
 func forall(f func(i int) bool) bool    { return f(0) }
@@ -229,7 +230,7 @@ retry:
 			L.FuncCon[path+"."+fc.Key] = fc
 		}
 		for _, m := range pc.Monitors {
-			L.Monitors[path+"."+m.Type] = m
+			L.Monitors[path+"."+m.Type+"."+m.Mu] = m // a type may declare several monitors (one per mutex field)
 		}
 	}
 	return L, nil
